@@ -29,10 +29,15 @@ type row struct {
 	Peer      string `json:"peer_credential"`
 	Verify    bool   `json:"verification_on"`
 	OwnCert   bool   `json:"own_certificate"`
+	NoName    bool   `json:"no_server_name_configured,omitempty"` // client role: caServerName left empty
 }
 
 func (r row) name() string {
-	return fmt.Sprintf("%s/%s/peer=%s/verify=%v/own=%v", r.Role, r.Embedding, r.Peer, r.Verify, r.OwnCert)
+	n := fmt.Sprintf("%s/%s/peer=%s/verify=%v/own=%v", r.Role, r.Embedding, r.Peer, r.Verify, r.OwnCert)
+	if r.NoName {
+		n += "/no-server-name"
+	}
+	return n
 }
 
 // expected: does a correct proxy complete a connection with this peer?
@@ -52,6 +57,9 @@ func expect(r row) (accept bool, why string) {
 	}
 	if !r.Verify {
 		return true, "verification explicitly disabled"
+	}
+	if r.NoName {
+		return false, "verification is on and no server name is configured: the configuration must be rejected or the server's certificate must still be verified"
 	}
 	switch r.Peer {
 	case "valid-ca1", "valid-ca1-second", "server-usage-only-ca1":
@@ -85,7 +93,9 @@ func proxyTLSConfig(p *pki, r row, own *cred) encryption.TLSConfig {
 		cfg.CertificatePath, cfg.KeyPath = own.certPath, own.keyPath
 	}
 	if r.Role == "client" {
-		cfg.CAServerName = "proxy.test"
+		if !r.NoName {
+			cfg.CAServerName = "proxy.test"
+		}
 	} else if !r.OwnCert {
 		cfg.CAServerName = "proxy.test" // keeps TLS "enabled" without a key pair
 	}
@@ -365,6 +375,11 @@ func TestMatrix(t *testing.T) {
 				for _, verify := range []bool{true, false} {
 					for _, own := range []bool{true, false} {
 						rows = append(rows, row{Role: role, Embedding: emb, Peer: peer, Verify: verify, OwnCert: own})
+						// client role, TLS enabled through the own key pair only, no server name configured: peers with a
+						// bad certificate must still not be admitted (valid peers are not judged in these rows)
+						if role == "client" && own && verify && !strings.HasPrefix(peer, "valid") && peer != "server-usage-only-ca1" {
+							rows = append(rows, row{Role: role, Embedding: emb, Peer: peer, Verify: verify, OwnCert: own, NoName: true})
+						}
 					}
 				}
 			}
@@ -393,7 +408,7 @@ func TestMatrix(t *testing.T) {
 		switch {
 		case o.inconclusive != "" && !(o.accepted && !want):
 			l.Verdict, l.Why = rec.Inconclusive, o.inconclusive+" ("+o.detail+")"
-			if !want && !o.proxyEndData && o.inconclusive == "could not build the server config" {
+			if !want && !o.proxyEndData && strings.HasPrefix(o.inconclusive, "could not build") {
 				// a config the proxy refuses to build admits nobody
 				l.Verdict, l.Why = rec.Held, ""
 				l.Counts["refused"] = 1
